@@ -1,5 +1,5 @@
 (* C16/Run.v — evaluation of the model and of the independent specification on harness cases. *)
-From Relic Require Import Base.Prelude Base.Enc Base.Val Generated.C16_gen C16.Model.
+From Relic Require Import Base.Prelude Base.Enc Base.Val Generated.C16_gen C16.Model C16.VModel.
 
 Definition status_of {A} (r : result A) : Z := match r with Ok _ => 0 | Err e => e | Panic _ => 99 end.
 Definition VBs (l : list bytes) : val := VL (map VB l).
@@ -144,9 +144,98 @@ Definition run_tlv (x : bytes) : val :=
 Definition run_int (c : bytes) : val :=
   VL [of_bool (int64_ok c); VZ (dec_int c); VB (enc_int (dec_int c)); of_bool (oid_ok c); of_bool (bits_ok c); VB (enc_bits c)].
 
+(* ------------------------------------------------------------------ verification path (C16/VModel.v)
+   The cryptographic parameters are tables made by the check (python: hashlib + its own RSA / ECDSA arithmetic):
+     hashtab [[digest algorithm OID contents; hash id] ...]      htab [[hash id; preimage; digest] ...]
+     sigtab  [[public key id; digest; code of the DigestInfo check; code of the check without DigestInfo] ...]
+   codes: 0 nil, 1 rsa.ErrVerification, other = another error.  A digest the table does not know is answered with a
+   value no table entry carries, a signature check the table does not know fails. *)
+Definition sigres_of (z : Z) : sigres := if z =? 0 then SigOk else if z =? 1 then SigRsaErr else SigOther.
+Definition tab_hash_of (tab : list val) (a : algid) : option Z :=
+  match find (fun e => bytes_eqb (vb (vnth 0 e)) (a_oid a)) tab with Some e => Some (vz (vnth 1 e)) | None => None end.
+Definition tab_H (tab : list val) (h : Z) (pre : bytes) : bytes :=
+  match find (fun e => (vz (vnth 0 e) =? h) && bytes_eqb (vb (vnth 1 e)) pre) tab with
+  | Some e => vb (vnth 2 e) | None => 238 :: 238 :: pre end.
+Definition tab_sig (tab : list val) (col : nat) (dflt : Z) (k : Z) (dig : bytes) : sigres :=
+  match find (fun e => (vz (vnth 0 e) =? k) && bytes_eqb (vb (vnth 1 e)) dig) tab with
+  | Some e => sigres_of (vz (vnth col e)) | None => sigres_of dflt end.
+Definition vcert (c : val) : cert := mkCert (vb (vnth 0 c)) (vb (vnth 1 c)) (vz (vnth 2 c)).
+Definition tab_crypto (hashtab htab sigtab : list val) (dp dr : Z) (pc : list cert * Z) (ti : result tstinfo) : crypto :=
+  mkCrypto (tab_hash_of hashtab) (tab_H htab)
+           (fun k _ _ dig _ => tab_sig sigtab 2 dp k dig) (fun k _ dig _ => tab_sig sigtab 3 dr k dig)
+           (fun _ => pc) (fun _ => ti) (fun _ => -1).
+Definition vcontent (present : val) (b : val) : value := if vbool present then Wby (vb b) else Wnil.
+
+(* kind 4: SignerInfo.Verify.  [si_full; content_present; content; skip; certs; hashtab; htab; sigtab; dp; dr]
+   -> [status (0 accept, else the error class); public key id; aab agrees with the RFC 5652 preimage of si_full (1/0/2 = no
+      signed attributes); interpreted aab = Model.aab] *)
+Definition run_verify (v : val) : val :=
+  let si_full := vb (vnth 0 v) in
+  let content := vcontent (vnth 1 v) (vnth 2 v) in
+  let skip := vbool (vnth 3 v) in
+  let certs := map vcert (vl (vnth 4 v)) in
+  let C := tab_crypto (vl (vnth 5 v)) (vl (vnth 6 v)) (vl (vnth 7 v)) (vz (vnth 8 v)) (vz (vnth 9 v)) ([], 0) (Err 1) in
+  match read_tlv si_full with
+  | Ok (t, _) =>
+      match parse_si t with
+      | Ok s =>
+          let sp := match spec_si_preimage si_full [] with
+                    | Some (true, p) => (match aab s with Ok q => if bytes_eqb p q then 1 else 0 | _ => 0 end)
+                    | _ => 2 end in
+          let same := match aab_m C s, aab s with
+                      | Ok a, Ok b => bytes_eqb a b | Err _, Err _ => true | _, _ => false end in
+          match si_verify C s content skip certs with
+          | VAccept c => VL [VZ 0; VZ (ce_pub c); VZ sp; of_bool same]
+          | VReject e => VL [VZ e; VZ 0; VZ sp; of_bool same]
+          end
+      | _ => VL [VZ 97; VZ 0; VZ 2; VZ 1]
+      end
+  | _ => VL [VZ 97; VZ 0; VZ 2; VZ 1]
+  end.
+
+(* kind 5: pkcs9.Verify.  [token; data; certs; tst:[ok; alg oid; alg params; hashed message; time]; parsed certs; parse error;
+                           hashtab; htab; sigtab; dp; dr]  -> [status; public key id; hash id; time] *)
+Definition run_tsverify (v : val) : val :=
+  let data := Wby (vb (vnth 1 v)) in
+  let certs := map vcert (vl (vnth 2 v)) in
+  let tv := vnth 3 v in
+  let ti := if vbool (vnth 0 tv) then Ok (mkTi (mkAlg (vb (vnth 1 tv)) (vb (vnth 2 tv))) (vb (vnth 3 tv)) (vz (vnth 4 tv))) else Err 1 in
+  let pc := (map vcert (vl (vnth 4 v)), vz (vnth 5 v)) in
+  let C := tab_crypto (vl (vnth 6 v)) (vl (vnth 7 v)) (vl (vnth 8 v)) (vz (vnth 9 v)) (vz (vnth 10 v)) pc ti in
+  match parse_cms (vb (vnth 0 v)) with
+  | Ok tok =>
+      match ts_verify C tok data certs with
+      | TsAccept _ c h t => VL [VZ 0; VZ (ce_pub c); VZ h; VZ t]
+      | TsReject e => VL [VZ e; VZ 0; VZ 0; VZ 0]
+      end
+  | _ => VL [VZ 97; VZ 0; VZ 0; VZ 0]
+  end.
+
+(* kind 6: SignedData.Verify.  [x; external content present; external content; skip; parsed certs; parse error;
+                                hashtab; htab; sigtab; dp; dr]  -> [status; public key id of the LAST signer info] *)
+Definition run_sdverify (v : val) : val :=
+  let ext := vcontent (vnth 1 v) (vnth 2 v) in
+  let skip := vbool (vnth 3 v) in
+  let pc := (map vcert (vl (vnth 4 v)), vz (vnth 5 v)) in
+  let C := tab_crypto (vl (vnth 6 v)) (vl (vnth 7 v)) (vl (vnth 8 v)) (vz (vnth 9 v)) (vz (vnth 10 v)) pc (Err 1) in
+  match parse_cms (vb (vnth 0 v)) with
+  | Ok o =>
+      match o_sd o with
+      | Some sd => match sd_verify C sd ext skip with
+                   | SdAccept _ c => VL [VZ 0; VZ (ce_pub c)]
+                   | SdReject e => VL [VZ e; VZ 0]
+                   end
+      | None => VL [VZ 96; VZ 0]
+      end
+  | _ => VL [VZ 97; VZ 0]
+  end.
+
 Definition run (v : val) : val :=
   let k := vz (vnth 0 v) in
   if k =? 0 then run_roundtrip (vb (vnth 1 v))
   else if k =? 1 then run_builder (vnth 1 v)
   else if k =? 2 then run_tlv (vb (vnth 1 v))
+  else if k =? 4 then run_verify (vnth 1 v)
+  else if k =? 5 then run_tsverify (vnth 1 v)
+  else if k =? 6 then run_sdverify (vnth 1 v)
   else run_int (vb (vnth 1 v)).
